@@ -130,7 +130,7 @@ def enabled(ref, client_ids=CLIENT_IDS, server_ids=SERVER_IDS, types=TYPES, with
     return evs
 
 
-def build(ev, ref, t_us, server_side=False, conn=None, queue=None):
+def build(ev, ref, t_us, server_side=False, conn=None, queue=None, decor=None):
     """Apply event `ev` to reference state `ref` at time t_us.  Returns
     (structured message, expectation).  expectation = {'target': label,
     'args': [(kind, label-or-None)...], 'destroyed': None | (label, lifespan_us)}"""
@@ -215,6 +215,10 @@ def build(ev, ref, t_us, server_side=False, conn=None, queue=None):
         exp['args'] = [('int', None)]
     else:
         raise ValueError(ev)
+    if decor and k in ('creq', 'cev', 'ment', 'use') and iface.startswith('zz_'):      # interfaces the protocol files do not fix
+        # further arguments beside the one that matters: strings are printed verbatim by libwayland, quotes included
+        args = args + [list(a) for a in decor]
+        exp['args'] = exp['args'] + [(a[0], None) for a in decor]
     ref.nmsg += 1
     if server_side:
         sent = not sent
